@@ -33,6 +33,7 @@ type Conn struct {
 
 	session    Session
 	locker     sync.Mutex
+	closed     bool
 	binarymime bool
 
 	lineLimitReader *lineLimitReader
@@ -169,6 +170,8 @@ func (c *Conn) setSession(session Session) {
 func (c *Conn) Close() error {
 	c.locker.Lock()
 	defer c.locker.Unlock()
+
+	c.closed = true
 
 	if c.bdatPipe != nil {
 		c.bdatPipe.CloseWithError(ErrDataReset)
@@ -1277,6 +1280,15 @@ func (c *Conn) writeError(code int, enhCode EnhancedCode, err error) {
 
 // Reads a line of input
 func (c *Conn) readLine() (string, error) {
+	// Input that was already buffered when the connection got closed (QUIT,
+	// too many errors, a panic, Server.Close) must not be executed.
+	c.locker.Lock()
+	closed := c.closed
+	c.locker.Unlock()
+	if closed {
+		return "", net.ErrClosed
+	}
+
 	if c.server.ReadTimeout != 0 {
 		if err := c.conn.SetReadDeadline(time.Now().Add(c.server.ReadTimeout)); err != nil {
 			return "", err
